@@ -1,3 +1,5 @@
+//go:build !skip_c08
+
 package main
 
 // C08 — FileStorage.Lock / Unlock on a real directory against the timed FileLock model.
